@@ -127,7 +127,11 @@ fn tx_date(ym: (i32, u32), what: &str) -> NaiveDate {
 fn amount_of(what: &str) -> Decimal {
     // the capital return is small against the purchase whatever the (synthetic) rates, so s122 never refuses it
     match what { "cr_total" => return Decimal::new(6, 2), "cr_fees" => return Decimal::new(1, 2), _ => {} }
-    Decimal::from(match what { "buy_price" => 8, "buy_fees" => 2, "div_total" | "ac_total" => 6, "div_tax" | "ac_tax" => 1, "sell_price" => 12, _ => 1 })
+    // amounts carry more decimals than any currency has minor units (unit prices do): conversion must not round them first
+    match what {
+        "buy_price" => Decimal::new(81237, 4), "buy_fees" => Decimal::new(2005, 3), "div_total" | "ac_total" => Decimal::new(6125, 3),
+        "div_tax" | "ac_tax" => Decimal::new(10049, 4), "sell_price" => Decimal::new(123456, 4), _ => Decimal::new(1005, 3),
+    }
 }
 
 fn ledger(rec: &FxRec, conv: Option<&[Decimal]>) -> Vec<Transaction> {
